@@ -167,11 +167,11 @@ VA:
 							}
 						}
 						if !present {
-							VerifYield("va-answer:NEW:REGISTER")
-							resp <- VarAns{ANS_OK, guessed}
 							VerifYield("va-notify:NEW:REGISTER")
 							useditem <- UsageNotify{TR_PROC, rproc, C_REGSIZE, S_NIL, i + 1}
 							busylist[rproc] = append(busylist[rproc], guessed)
+							VerifYield("va-answer:NEW:REGISTER")
+							resp <- VarAns{ANS_OK, guessed}
 							created = true
 							break
 						}
@@ -197,11 +197,11 @@ VA:
 							}
 						}
 						if !present {
-							VerifYield("va-answer:NEW:REGISTER")
-							resp <- VarAns{ANS_OK, guessed}
 							VerifYield("va-notify:NEW:REGISTER")
 							useditem <- UsageNotify{TR_PROC, rproc, C_REGSIZE, S_NIL, i + 1}
 							busylist[rproc] = append(busylist[rproc], guessed)
+							VerifYield("va-answer:NEW:REGISTER")
+							resp <- VarAns{ANS_OK, guessed}
 							created = true
 							break
 						}
@@ -232,11 +232,11 @@ VA:
 							}
 						}
 						if !present {
-							VerifYield("va-answer:NEW:MEMORY")
-							resp <- VarAns{ANS_OK, guessed}
 							VerifYield("va-notify:NEW:MEMORY")
 							useditem <- UsageNotify{TR_PROC, rproc, C_RAMSIZE, S_NIL, i + 1}
 							busylist[rproc] = append(busylist[rproc], guessed)
+							VerifYield("va-answer:NEW:MEMORY")
+							resp <- VarAns{ANS_OK, guessed}
 							created = true
 							break
 						}
@@ -263,11 +263,11 @@ VA:
 							}
 						}
 						if !present {
-							VerifYield("va-answer:NEW:MEMORY")
-							resp <- VarAns{ANS_OK, guessed}
 							VerifYield("va-notify:NEW:MEMORY")
 							useditem <- UsageNotify{TR_PROC, rproc, C_RAMSIZE, S_NIL, i + 1}
 							busylist[rproc] = append(busylist[rproc], guessed)
+							VerifYield("va-answer:NEW:MEMORY")
+							resp <- VarAns{ANS_OK, guessed}
 							created = true
 							break
 						}
@@ -323,14 +323,14 @@ VA:
 								}
 							}
 							if !present {
-								VerifYield("va-answer:NEW:INPUT")
-								resp <- VarAns{ANS_OK, guessed}
 								// Only in the IO is inittializated its use has to be notified
 								if rcell.Global_id != 0 {
 									VerifYield("va-notify:NEW:INPUT")
 									useditem <- UsageNotify{TR_PROC, rproc, C_INPUT, S_NIL, rcell.Global_id}
 								}
 								busylist[rproc] = append(busylist[rproc], guessed)
+								VerifYield("va-answer:NEW:INPUT")
+								resp <- VarAns{ANS_OK, guessed}
 								break
 							}
 						}
@@ -391,14 +391,14 @@ VA:
 								}
 							}
 							if !present {
-								VerifYield("va-answer:NEW:OUTPUT")
-								resp <- VarAns{ANS_OK, guessed}
 								// Only in the IO is inittializated its use has to be notified
 								if rcell.Global_id != 0 {
 									VerifYield("va-notify:NEW:OUTPUT")
 									useditem <- UsageNotify{TR_PROC, rproc, C_OUTPUT, S_NIL, rcell.Global_id}
 								}
 								busylist[rproc] = append(busylist[rproc], guessed)
+								VerifYield("va-answer:NEW:OUTPUT")
+								resp <- VarAns{ANS_OK, guessed}
 								break
 							}
 						}
@@ -451,13 +451,13 @@ VA:
 								}
 							}
 							if !present {
-								VerifYield("va-answer:NEW:CHANNEL")
-								resp <- VarAns{ANS_OK, guessed}
 								VerifYield("va-notify:NEW:CHANNEL")
 								useditem <- UsageNotify{TR_PROC, rproc, C_SHAREDOBJECT, "channel:", I_NIL}
 								busylist[rproc] = append(busylist[rproc], guessed)
 								VerifYield("va-notify:NEW:CHANNEL")
 								useditem <- UsageNotify{TR_CHAN, guessed_global_id, C_CONNECTED, S_NIL, rproc}
+								VerifYield("va-answer:NEW:CHANNEL")
+								resp <- VarAns{ANS_OK, guessed}
 								created = true
 								break
 							}
@@ -509,13 +509,13 @@ VA:
 								}
 							}
 							if !present {
-								VerifYield("va-answer:NEW:CHANNEL")
-								resp <- VarAns{ANS_OK, guessed}
 								VerifYield("va-notify:NEW:CHANNEL")
 								useditem <- UsageNotify{TR_PROC, rproc, C_SHAREDOBJECT, "channel:", I_NIL}
 								busylist[rproc] = append(busylist[rproc], guessed)
 								VerifYield("va-notify:NEW:CHANNEL")
 								useditem <- UsageNotify{TR_CHAN, guessed_global_id, C_CONNECTED, S_NIL, rproc}
+								VerifYield("va-answer:NEW:CHANNEL")
+								resp <- VarAns{ANS_OK, guessed}
 								created = true
 								break
 							}
@@ -549,14 +549,14 @@ VA:
 							}
 						}
 						if !present {
-							VerifYield("va-answer:ATTACH:CHANNEL")
-							resp <- VarAns{ANS_OK, guessed}
 							VerifYield("va-notify:ATTACH:CHANNEL")
 							useditem <- UsageNotify{TR_PROC, rproc, C_SHAREDOBJECT, "channel:", I_NIL}
 							busylist[rproc] = append(busylist[rproc], guessed)
 							busychan[guessed_global_id].Connected = append(busychan[guessed_global_id].Connected, rproc)
 							VerifYield("va-notify:ATTACH:CHANNEL")
 							useditem <- UsageNotify{TR_CHAN, guessed_global_id, C_CONNECTED, S_NIL, rproc}
+							VerifYield("va-answer:ATTACH:CHANNEL")
+							resp <- VarAns{ANS_OK, guessed}
 							created = true
 							break
 						}
@@ -582,14 +582,14 @@ VA:
 							}
 						}
 						if !present {
-							VerifYield("va-answer:ATTACH:CHANNEL")
-							resp <- VarAns{ANS_OK, guessed}
 							VerifYield("va-notify:ATTACH:CHANNEL")
 							useditem <- UsageNotify{TR_PROC, rproc, C_SHAREDOBJECT, "channel:", I_NIL}
 							busylist[rproc] = append(busylist[rproc], guessed)
 							busychan[guessed_global_id].Connected = append(busychan[guessed_global_id].Connected, rproc)
 							VerifYield("va-notify:ATTACH:CHANNEL")
 							useditem <- UsageNotify{TR_CHAN, guessed_global_id, C_CONNECTED, S_NIL, rproc}
+							VerifYield("va-answer:ATTACH:CHANNEL")
+							resp <- VarAns{ANS_OK, guessed}
 							created = true
 							break
 						}
